@@ -39,7 +39,8 @@ RULE = ("all registered (message, block, variable) serializers; int-typed: every
         ". Round-5 additions: the literal law is applied to both printed forms - repr() and the library's own printer (HippoPrettyPrinter, the one the textual message form is made with); double fields also get single-precision values widened to double"
         ". Rounds 6-7: a refused encode (integer too large, late in the structure) precedes every other own-payload check; tiny payloads (zero entries, lone count bytes) for every key; face numbers beyond 64; calls from four threads; last in each shard the library's template reload is provoked and values decoded before it are written back through the Block API"
         ". Round 8: order of equal entries after a round trip; blocks moved from one message to another (payloads generated per registry key); the library printer in the literal law"
-        ". Round 9: quantised fields are given raws next to the ends and the middle of their domain, and a raw whose decoded value does not encode back to it is reported; every editable leaf of a decoded value is edited in place (both forms) and all payloads of the batch are decoded and encoded again")
+        ". Round 9: quantised fields are given raws next to the ends and the middle of their domain, and a raw whose decoded value does not encode back to it is reported; every editable leaf of a decoded value is edited in place (both forms) and all payloads of the batch are decoded and encoded again"
+        ". Round 10: the block's own object taken without a copy, edited in place and written back with serialize_var - the field must hold the encoding of the edited object")
 ASSUMPTIONS = [
     "registrations whose variable no longer exists in the message template are listed and skipped",
     "date adapters may reject raws outside year 1..9999 (counted; at least 200 raws per date field must have been accepted)",
